@@ -79,6 +79,14 @@ type scenario struct {
 	Chain []item `json:"chain"`
 	Site  []node `json:"site"`
 }
+type ptrErr struct{ msg string }
+
+func (e *ptrErr) Error() string { return e.msg }
+
+type panicErr struct{}
+
+func (panicErr) Error() string { panic("Error() panics") }
+
 type lazy struct{ v slog.Value }
 
 func (l lazy) LogValue() slog.Value { return l.v }
@@ -192,6 +200,8 @@ func runValues(out string) {
 		{"ansi", logger.AnsiString{Prefix: "\x1b[31m", Value: "A V"}}, {"nil", nil}, {"bytes", []byte{1, 2, 61}},
 		{"map", map[string]int{"a": 1}}, {"struct", plain{1, "x y"}}, {"tmOK", tmOK{}}, {"tmFail", tmFail{}},
 		{"valuerStr", lazy{slog.StringValue("L V")}}, {"valuerErr", lazy{slog.AnyValue(errors.New("E! a=b"))}},
+		// error values whose Error method cannot be called: a nil pointer receiver, a method that panics
+		{"nilErrPtr", (*ptrErr)(nil)}, {"valuerNilErrPtr", lazy{slog.AnyValue((*ptrErr)(nil))}}, {"panicErr", panicErr{}},
 		{"valuerGroup", lazy{slog.GroupValue(slog.Int("a", 1))}}, {"valuerEmptyGroup", lazy{slog.GroupValue()}},
 		{"newline", "two\nlines"}, {"fakefield", "x level=ERROR msg=forged"}, {"quote", `say "hi"`}, {"empty", ""},
 	}
@@ -204,14 +214,17 @@ func runValues(out string) {
 				for _, where := range []string{"site", "with", "group"} {
 					c := &capture{}
 					l := logger.New(logger.NewTextHandler(c, logger.NewOptions(logger.LevelDebug, false, addSource)))
-					switch where {
-					case "site":
-						l.Log(nil, level, "m", "v", k.v, "z", 1)
-					case "with":
-						l.With("v", k.v).Log(nil, level, "m", "z", 1)
-					default:
-						l.WithGroup("g").Log(nil, level, "m", slog.Group("h", slog.Any("v", k.v)), "z", 1)
-					}
+					func() {
+						defer func() { recover() }() // a logging call that panics has written nothing: judged as such
+						switch where {
+						case "site":
+							l.Log(nil, level, "m", "v", k.v, "z", 1)
+						case "with":
+							l.With("v", k.v).Log(nil, level, "m", "z", 1)
+						default:
+							l.WithGroup("g").Log(nil, level, "m", slog.Group("h", slog.Any("v", k.v)), "z", 1)
+						}
+					}()
 					lv := map[slog.Level]string{logger.LevelInfo: "INFO", logger.LevelFatal: "FATAL"}[level]
 					t, one, head := tail(c, lv)
 					w.Put(map[string]any{"mode": "values", "kind": k.name, "where": where, "source": addSource, "tail": t, "onewrite": one, "head": head})
